@@ -513,6 +513,28 @@ def extra_checks(run):
     return out
 
 
+def _extra_checks_c18(run):
+    """"inverted by passing nothing" - every time: on a mutex-enabled stack the inversions of 16 goroutines all count
+    (an option inverted an even number of times stands where it stood, whatever order the calls took effect in)"""
+    import subprocess, os
+    if not run.harness:
+        return []
+    rounds, ops = ("120", "300") if run.tier == "quick" else ("1500", "500")
+    cmd = [run.harness, "stress", "-toggles", "-seed", str(run.seed), "-rounds", rounds, "-ops", ops]
+    try:
+        p = subprocess.run(cmd, stdout=subprocess.PIPE, stderr=subprocess.PIPE, text=True, timeout=900)
+        out, rc, err = p.stdout, p.returncode, p.stderr
+    except subprocess.TimeoutExpired as e:
+        return [("toggles-timeout", "option inversions from 16 goroutines did not finish within 900 s", "cmd: %s\n" % " ".join(cmd))]
+    fails = [l for l in out.split("\n") if l.startswith("STRESS-FAIL")]
+    done = [l for l in out.split("\n") if l.startswith("STRESS-DONE")]
+    run.notes.append("concurrent inversions: %s" % (done[0] if done else "no summary (exit %s)" % rc))
+    if fails or not done:
+        return [("toggles", "options inverted from 16 goroutines on a mutex-enabled stack: %s" % (fails[0] if fails else "process exited with %s: %s" % (rc, err.strip()[-300:])),
+                 "cmd: %s\n%s" % (" ".join(cmd), "\n".join(fails[:40])))]
+    return []
+
+
 def shrink_keep_tail(line):
     """number of trailing operations of a case that belong to a fixed epilogue (not to be removed when shrinking)"""
     if line.startswith("frozen "):
@@ -696,4 +718,6 @@ def extra_checks(run):
     if run.pid == "C10":
         import c10_extra
         return c10_extra.extra_checks(run)
+    if run.pid == "C18":
+        return _extra_checks_c18(run)
     return _extra_checks_c11(run)
